@@ -284,7 +284,7 @@ class Play:
     def inject_newview(self, v):
         rng = self.rng
         x = self.fresh("nv")
-        kind = rng.choice(["stale-qc", "forged-tc", "nil-tc", "nil-agg", "good-old", "relabel-qc"])
+        kind = rng.choice(["stale-qc", "forged-tc", "nil-tc", "nil-agg", "good-old", "relabel-qc", "genesis-relabel"])
         ps = self.puppets()
         if kind == "stale-qc":
             self.L.append(f"si {x} qc={rng.choice(self.qcs)} tc=- agg=-")
@@ -299,6 +299,9 @@ class Play:
         elif kind == "nil-agg":
             self.L.append(f"agg {x}a sig=nil view={v} qcs={ps[0]}:{self.curqc}")
             self.L.append(f"si {x} qc=- tc=- agg={x}a")
+        elif kind == "genesis-relabel":
+            self.L.append(f"qc {x}q sig={rng.choice(['nil', self.curqc + '.sig' if self.cur != 'G' else 'nil'])} view={v + rng.choice([0, 1, 7])} hash=G")
+            self.L.append(f"si {x} qc={x}q tc=- agg=-")
         elif kind == "relabel-qc" and self.cur != "G":
             self.L.append(f"qc {x}q sig={self.curqc}.sig view={v + 5} hash={self.cur}")
             self.L.append(f"si {x} qc={x}q tc=- agg=-")
